@@ -187,6 +187,72 @@ def run_exec(prog: Program, knobs: Knobs, choices: Choices, opts: DOpts | None,
         ex.close()
 
 
+def _first_of(prog: Program, ref: str) -> bool:
+    s_ = prog.stages[ref]
+    nd_ = len(s_.get("deps") or [])
+    return nd_ > 1 and (s_.get("join", "AND") == "DISCRIMINATOR"
+                        or (s_.get("join") == "N_OF_M" and 0 < int(s_.get("thr", 0)) < nd_))
+
+
+def sure_done(prog: Program, ref: str) -> set[str]:
+    """Stages certainly finished while ``ref`` runs: its upstreams through all-of joins only."""
+    if _first_of(prog, ref):
+        return set()
+    out: set[str] = set()
+    for d in prog.stages[ref].get("deps") or []:
+        out |= {d} | sure_done(prog, d)
+    return out
+
+
+def jump_parallel(prog: Program) -> set[str]:
+    """Stages that a backward jump may re-arm *while they are running or already finished*, the schedule decides
+    which: re-armed stages (target and everything downstream of it) that are neither certainly finished when
+    the jumping stage runs (its upstreams through all-of joins) nor certainly unstarted (downstream of the
+    jumping stage through all-of joins only).  Whether such a stage had completed (its tasks then count one more
+    finished iteration), had planned its synthetic stages (re-created by the next start) or had not begun is a
+    race with the jump, so its outputs - hence the view of everything downstream - and the number of
+    synthetic-stage instances under it are schedule dependent."""
+    early: set[str] = set()
+    for ref in prog.order:
+        if _first_of(prog, ref):
+            early |= {ref} | prog.descendants(ref)
+    out: set[str] = set()
+    for j in prog.order:
+        for t in prog.task_specs(j):
+            if t.get("b") != "jumper" or t.get("target") not in prog.stages:
+                continue
+            tgt = t["target"]
+            rearmed = {tgt} | prog.descendants(tgt)
+            out |= rearmed - sure_done(prog, j) - {j} - (prog.descendants(j) - early)
+    return out
+
+
+def ref_unusable(ref: dict[str, Any], prog: Any = None) -> bool:
+    """A reference run is no yardstick when it did not quiesce, a handler raised, or it ended *stuck* (queue
+    drained, workflow neither final nor explicitly waiting - C05's subject, e.g. the jump-across-a-fan-in wedge):
+    differential checks count such programs as inconclusive."""
+    if not ref["quiescent"] or ref["errors"]:
+        return True
+    if prog is not None and ref.get("h") is not None:
+        from sim.oracles import jump_path_not_rearmed
+
+        if jump_path_not_rearmed(ref["h"], prog):
+            return True     # the reference itself ran into the jump-across-a-fan-in wedge (KF-C05-jump-across-fanin-wedge)
+    fs = ref["fs"]
+    wf = fs["wf_status"]
+    waiting = wf in ("BUFFERED", "PAUSED") or any(v["status"] == "SUSPENDED" for v in fs["stages"].values())
+    return wf not in ("SUCCEEDED", "FAILED_CONTINUE", "TERMINAL", "CANCELED", "STOPPED", "SKIPPED") and not waiting
+
+
+def count_racy(prog: Program) -> set[str]:
+    """Stages whose tasks' execution *counts* are schedule dependent: a stage that a jump may hit mid-run is
+    interrupted (or not) and restarted, and everything downstream of it runs once per completed pass."""
+    out: set[str] = set()
+    for s_ in jump_parallel(prog):
+        out |= {s_} | prog.descendants(s_)
+    return out
+
+
 def racy_sets(prog: Program, fs0: dict[str, Any]) -> tuple[set[str], set[str]]:
     """(stages whose final status is schedule dependent, stages whose upstream view is schedule dependent).
 
@@ -203,34 +269,15 @@ def racy_sets(prog: Program, fs0: dict[str, Any]) -> tuple[set[str], set[str]]:
         if nd > 1 and (j == "DISCRIMINATOR" or (j == "N_OF_M" and 0 < int(s.get("thr", 0)) < nd)):
             view_racy |= {ref} | prog.descendants(ref)
             early |= {ref} | prog.descendants(ref)
-    # a backward jump re-arms the target and everything downstream of it; a re-armed stage that is not an
-    # ancestor of the jumping stage runs in parallel with it, so whether it had already finished (and its tasks
-    # count one more completed iteration) when the jump hit is the schedule's choice: its outputs, hence the view
-    # of everything downstream of it, are schedule dependent
-    def first_of(ref: str) -> bool:
-        s_ = prog.stages[ref]
-        nd_ = len(s_.get("deps") or [])
-        return nd_ > 1 and (s_.get("join", "AND") == "DISCRIMINATOR"
-                            or (s_.get("join") == "N_OF_M" and 0 < int(s_.get("thr", 0)) < nd_))
-
-    def sure_done(ref: str) -> set[str]:
-        """Stages certainly finished while ``ref`` runs: its upstreams through all-of joins only."""
-        if first_of(ref):
-            return set()
-        out: set[str] = set()
-        for d in prog.stages[ref].get("deps") or []:
-            out |= {d} | sure_done(d)
-        return out
-
-    for j in prog.order:
-        for t in prog.task_specs(j):
-            if t.get("b") != "jumper" or t.get("target") not in prog.stages:
-                continue
-            tgt = t["target"]
-            rearmed = {tgt} | prog.descendants(tgt)
-            parallel = rearmed - sure_done(j) - {j} - prog.descendants(j)
-            for s_ in parallel:
-                view_racy |= prog.descendants(s_)
+    for s_ in jump_parallel(prog):
+        view_racy |= prog.descendants(s_)
+    # an OR-split that does not activate a downstream stage X skips X at once, whatever X's other upstreams are
+    # doing: everything after X may start while those still run, so what it sees of them is a race
+    for ref in prog.order:
+        for x, cond in (prog.stages[ref].get("split") or {}).items():
+            if cond != "True" and x in prog.stages and len(prog.stages[x].get("deps") or []) > 1:
+                view_racy |= prog.descendants(x)
+                early |= prog.descendants(x)
     halted = [k for k, v in fs0["stages"].items() if v["status"] in HALT and not v["synthetic"] and k in prog.stages]
     status_racy: set[str] = set()
     if halted:
@@ -258,9 +305,12 @@ def compare_outcome(prog: Program, ref: dict[str, Any], run: dict[str, Any]) -> 
                          f"workflow ended {fs['wf_status']}, in-order exactly-once run ends {fs0['wf_status']}; "
                          f"stages={ {k: v['status'] for k, v in fs['stages'].items()} }"))
     diff = {}
+    par = jump_parallel(prog)
     for k in set(fs["stages"]) | set(fs0["stages"]):
         if k.split("/")[0] in status_racy:
             continue
+        if "/" in k and k.split("/")[0] in par:
+            continue     # synthetic stages of a stage that a jump may hit mid-run: instance count is a race
         a = (fs0["stages"].get(k) or {}).get("status")
         b = (fs["stages"].get(k) or {}).get("status")
         if a != b:
